@@ -1,7 +1,8 @@
 """XML front end (wbxml_tree_clb_xml.c + the XML half of wbxml_tree.c): correspondence of coq/Model/XmlFront.v with the C.
 
     correspond(seed, quick) -> dict(evaluations, disagreements, samples, distribution, ...)
-    python3 -m vlib.xmlfront [--thorough] [--seed N] [--strict-codes] [--hex DOC]
+    correspond_conv(seed, quick) -> dict(evaluations, disagreements, samples, ...)   whole conversion (see below)
+    python3 -m vlib.xmlfront [--conv] [--thorough] [--seed N] [--strict-codes] [--hex DOC]
                                                           prints the disagreements, exits non-zero if there is any
                                                           (--strict-codes: an error-code-only difference counts too;
                                                            used for mutation analysis, 0 on the unchanged tree)
@@ -160,6 +161,11 @@ def binary_docs(rng, quick):
             wrapper = rng.choice([b"Add", b"Change", b"ApplicationData", b"Fetch", b"Replace"])
             out.append(("binary", b'<?xml version="1.0"?>' + dt + b"<Sync xmlns='AirSync:'><Commands><%s><Item><%s xmlns='%s'>%s</%s></Item><ServerId>1</ServerId></%s></Commands></Sync>"
                         % (wrapper, tag, ns, p, tag, wrapper)))
+    # mixed content of a binary-flagged element: every run of base64 text is decoded on its own, in front of the child that
+    # follows it (/repo c0648d3: the flush also runs when a child element starts)
+    for mixed in (b"Zg==<SmartReply/>b28=", b"Zg==<SmartReply/>", b"<SmartReply/>b28=", b"Zm9v<SmartReply>YmFy</SmartReply>YmF6", b"!!<SmartReply/>b28=", b"Zg==<SmartReply/>!!",
+                  b"Zg==<a/><b/>b28=<c/>", b" <SmartReply/> ", b"Zg==<MIME>b28=</MIME>Zg==", b"Zg==<![CDATA[x]]><SmartReply/>b28="):
+        out.append(("binary", b'<?xml version="1.0"?>' + ACTIVESYNC + b"<SmartForward xmlns='ComposeMail:'><MIME>" + mixed + b"</MIME></SmartForward>"))
     # a binary element at the nesting limit: its child is refused, the cached text is still decoded at the child's end tag
     for payload in (b"YWJj", b"!!!!"):
         for depth in (997, 998, 999):
@@ -508,6 +514,130 @@ def correspond(seed=1, quick=True, extra_cases=None, only_extra=False, strict_co
             "samples": samples, "distribution": dist}
 
 
+# ----------------------------------------------------------------------------------------------
+# whole conversion: front end + WBXML encoder inside Conv.conv_run  (coq/Model/ConvXml2Wbxml.v)
+# ----------------------------------------------------------------------------------------------
+
+OPTION_TUPLES = [(v, kw, st, an) for v in (0, 1, 2, 3) for kw in (0, 1) for st in (0, 1) for an in (0, 1)]
+FULL_KINDS = ("corpus", "syncml-data", "embedded", "embedded-deep", "binary", "binary-deep", "deep", "deep-after-embedded", "wide", "entities", "tables")
+
+
+def conv_cases(seed, quick):
+    """(kind, document, (version, keep_ws, use_strtbl, anonymous)): the streams of cases() x option tuples —
+    thorough: all 32 tuples for the corpus and the constructed streams (documents up to 20 KB; the model's string table
+    and text merge are quadratic), 4 sampled tuples for the bulk streams and the big documents;
+    quick: 2 sampled tuples per document (every tuple is used about 1/16 of the time)"""
+    rng = common.Rng(seed, 7201)
+    out = []
+    for k, d in cases(seed, quick):
+        if len(d) > 120000:
+            continue
+        if quick:
+            ts = [rng.choice(OPTION_TUPLES) for _ in range(2)]
+        elif k in FULL_KINDS and len(d) <= 20000 and k != "wide":
+            ts = OPTION_TUPLES
+        else:
+            ts = [rng.choice(OPTION_TUPLES) for _ in range(4)]
+        for t in dict.fromkeys(ts):
+            out.append((k, d, t))
+    return out
+
+
+def correspond_conv(seed=1, quick=True, extra_cases=None, only_extra=False, strict_codes=False):
+    """model of wbxml_conv_xml2wbxml_run vs the C: status (OK / ERR, codes soft) and the exact WBXML bytes"""
+    H = common.build_harness("c02c_harness")
+    HT = common.build_harness("xmlfront_harness")
+    D = common.build_driver("C02c")
+    cs = [] if only_extra else conv_cases(seed, quick)
+    cs += list(extra_cases or [])
+    seen, uniq = set(), []
+    for k, d, t in cs:
+        h = (hashlib.sha256(d).digest(), t)
+        if h not in seen:
+            seen.add(h)
+            uniq.append((k, d, t))
+    cs = uniq
+    lines = ["%s %d %d %d %d" % ((d.hex() if d else "-",) + t) for _, d, t in cs]
+    ans, crashes = common.run_lines(H, lines, shards=min(common.NPROC, max(1, len(lines) // 4)))
+    disagreements, soft, samples = [], [], []
+    dist = {"kinds": {}, "c_verdicts": {}, "options": {}, "expat_refused": 0, "nested_documents": 0, "wbxml_bytes": 0}
+    for c in crashes:
+        lo, hi = c["range"]
+        for i in range(lo, hi):
+            if ans[i] is None or not ans[i].startswith("EV") or len(ans[i].split(" | ")) != 3:
+                a1, c1 = common.run_lines(H, [lines[i]], shards=1)
+                if c1:
+                    disagreements.append({"kind": "crash:" + cs[i][0], "doc_hex": lines[i].split(" ")[0], "options": cs[i][2],
+                                          "c": "harness crashed / sanitizer report rc=%s" % c1[0]["rc"], "model": "", "stderr": c1[0]["stderr"][-1500:]})
+                    ans[i] = None
+                else:
+                    ans[i] = a1[0]
+    parsed = [split_answer(a) for a in ans]
+    pending = [i for i, p in enumerate(parsed) if p is not None]
+    subs = {i: {} for i in pending}
+    results = {}
+    tree_answer = {}
+    for rnd in range(MAX_ROUNDS):
+        if not pending:
+            break
+        ml = []
+        for i in pending:
+            ev, st, _ = parsed[i]
+            sb = subs[i]
+            ml.append("%s %s %d %d %d %d %d%s %s" % ((lines[i].split(" ")[0], st) + cs[i][2] + (len(sb), "".join(" %s %s" % (h, a) for h, a in sb.items()), ev)))
+        mo, _ = common.run_lines(D, ml, shards=min(common.NPROC, max(1, len(ml) // 8)))
+        need, nxt = {}, []
+        for i, o in zip(pending, mo):
+            if o is not None and o.startswith("NEED "):
+                need.setdefault(o[5:], []).append(i)
+                nxt.append(i)
+            else:
+                results[i] = o if o is not None else "bad driver-crash"
+        unknown = [h for h in need if h not in tree_answer]
+        if unknown:
+            a2, _ = common.run_lines(HT, unknown, shards=min(common.NPROC, max(1, len(unknown) // 4)))
+            for h, a in zip(unknown, a2):
+                p = split_answer(a)
+                tree_answer[h] = p[2] if p is not None else "T ERR 0"
+            dist["nested_documents"] += len(unknown)
+        for h, idxs in need.items():
+            for i in idxs:
+                subs[i][h] = sub_answer(tree_answer[h])
+        pending = nxt
+    for i in pending:
+        results[i] = "bad nested-rounds-exhausted"
+    evaluations = 0
+    for i, p in enumerate(parsed):
+        if p is None:
+            continue
+        k, d, t = cs[i]
+        ev, st, w = p
+        m = results.get(i, "bad no-answer")
+        evaluations += 1
+        dist["kinds"][k] = dist["kinds"].get(k, 0) + 1
+        dist["options"]["v%d kw%d st%d an%d" % t] = dist["options"].get("v%d kw%d st%d an%d" % t, 0) + 1
+        v = "OK" if w.startswith("W OK") else (w.split(" ")[0] + " " + " ".join(w.split(" ")[1:3]))
+        dist["c_verdicts"][v] = dist["c_verdicts"].get(v, 0) + 1
+        if st == "0":
+            dist["expat_refused"] += 1
+        if w.startswith("W OK "):
+            dist["wbxml_bytes"] += (len(w) - 5) // 2
+        if len(samples) < 12 and evaluations % 197 == 1:
+            samples.append({"kind": k, "options": t, "doc": d[:200].decode("latin-1"), "c": w[:120], "model": m[:120]})
+        if w == m:
+            continue
+        if w.startswith("W ERR") and m.startswith("W ERR") and "!" not in w:
+            soft.append({"kind": k, "options": t, "doc_hex": d.hex()[:4000], "c": w, "model": m})
+            if not strict_codes:
+                continue
+            k = "code:" + k
+        disagreements.append({"kind": k, "options": t, "doc_hex": d.hex(), "doc": d[:600].decode("latin-1"), "c": w[:1500], "model": m[:1500],
+                              "expat_status": st})
+    dist["distinct_cases"] = len(cs)
+    return {"evaluations": evaluations, "disagreements": disagreements, "soft_error_code_differences": len(soft), "soft_samples": soft[:5],
+            "samples": samples, "distribution": dist}
+
+
 def main(argv):
     quick = "--thorough" not in argv
     seed = 1
@@ -516,10 +646,15 @@ def main(argv):
     extra = []
     if "--hex" in argv:
         extra = [("cli", bytes.fromhex(argv[argv.index("--hex") + 1]))]
-    r = correspond(seed, quick, extra_cases=extra, only_extra=bool(extra), strict_codes="--strict-codes" in argv)
+    if "--conv" in argv:
+        ot = OPTION_TUPLES if extra else []
+        r = correspond_conv(seed, quick, extra_cases=[("cli", d, t) for _, d in extra for t in ot], only_extra=bool(extra),
+                            strict_codes="--strict-codes" in argv)
+    else:
+        r = correspond(seed, quick, extra_cases=extra, only_extra=bool(extra), strict_codes="--strict-codes" in argv)
     for d in r["disagreements"][:40]:
-        print("DISAGREEMENT kind=%s\n  doc   = %s\n  hex   = %s\n  C     = %s\n  model = %s%s" % (
-            d["kind"], d.get("doc", "")[:300].replace("\n", "\\n"), d["doc_hex"][:600], d["c"][:600], d["model"][:600],
+        print("DISAGREEMENT kind=%s%s\n  doc   = %s\n  hex   = %s\n  C     = %s\n  model = %s%s" % (
+            d["kind"], (" options(v,kw,st,an)=%s" % (d["options"],)) if "options" in d else "", d.get("doc", "")[:300].replace("\n", "\\n"), d["doc_hex"][:600], d["c"][:600], d["model"][:600],
             ("\n  stderr= " + d["stderr"][-600:]) if d.get("stderr") else ""))
     print("evaluations=%d disagreements=%d soft=%d distribution=%s" % (r["evaluations"], len(r["disagreements"]), r["soft_error_code_differences"], r["distribution"]))
     return 1 if r["disagreements"] else 0
